@@ -1,6 +1,71 @@
+import Model.Executor
 import Driver.Util
 namespace Driver.C13
-/-- placeholder: replaced when the property's model is built -/
-def step (_ : Unit) (_ : List String) : Unit × String := ((), "unimplemented")
+open Util Executor
+
 def init : Unit := ()
+
+def rtOfChar : Char → RT
+  | 'r' => .retry | 't' => .rethrow | 'i' => .ignore | 'n' => .nextHost | _ => .unknown
+
+/-- policy syntax: none | simple:N | exp:N | down:L | custom:LIMIT:<10 chars, retry type per error kind 0..9> -/
+def parsePolicy (s : String) : Option (Option Policy) :=
+  match s.splitOn ":" with
+  | ["none"] => some none
+  | ["simple", n] => n.toNat?.map fun k => some (simplePolicy k)
+  | ["exp", n] => n.toNat?.map fun k => some (exponentialPolicy k)
+  | ["down", n] => n.toNat?.map fun k => some (downgradingPolicy k)
+  | ["custom", lim, tbl] => lim.toNat?.map fun k =>
+      some { attempt := fun n => decide (n ≤ k), rtype := fun e => rtOfChar (tbl.toList.getD e 'u') }
+  | _ => none
+
+def parseHost (s : String) : Option Host :=
+  match s.splitOn ":" with
+  | [a, b, c] => do
+    let id ← a.toNat?
+    pure ⟨id, b == "1", c == "1"⟩
+  | _ => none
+
+/-- outcomes: comma list of o | l | e<k> ; attempts beyond the list get `o` -/
+def parseRes (s : String) : Option Res :=
+  if s == "o" then some .ok else if s == "l" then some .logical
+  else if s.startsWith "e" then (s.drop 1).toNat?.map Res.err else none
+
+def showFinal : Final → String
+  | .last .ok => "ok"
+  | .last .logical => "logical"
+  | .last (.err k) => s!"err{k}"
+  | .lastErr k => s!"err{k}"
+  | .noConnections => "noconn"
+  | .unknownRetryType => "unknownrt"
+  | .outOfFuel => "out-of-fuel"
+
+def step (_ : Unit) (ws : List String) : Unit × String :=
+  ((), match ws with
+  | ["do", pol, hosts, outs] =>
+      match parsePolicy pol, (if hosts == "-" then some [] else (hosts.splitOn ",").mapM parseHost),
+            (if outs == "-" then some [] else (outs.splitOn ",").mapM parseRes) with
+      | some p, some hs, some os =>
+        let out := doQuery p (fun n => os.getD n .ok) 64 hs 0
+        "attempts=" ++ (if out.attempts.isEmpty then "-" else ",".intercalate (out.attempts.map toString)) ++
+          " final=" ++ showFinal out.final
+      | _, _, _ => "bad-op"
+  | ["spec", idem, a, nh, nreq, first, result] =>
+      match a.toNat?, nh.toNat?, nreq.toNat? with
+      | some sa, some hosts, some n =>
+        if n > maxExecutions (idem == "1") sa then s!"reject:too-many-executions:{n}"
+        else if n > hosts then s!"reject:more-requests-than-hosts:{n}"
+        else if result == "noconn" then
+          -- an execution that found the shared host iterator exhausted may complete first
+          if maxExecutions (idem == "1") sa > hosts then "accept" else "reject:noconn-with-hosts-left"
+        else if n == 0 then "reject:never-sent"
+        else if first != result then s!"reject:not-first-result:{first}:{result}"
+        else "accept"
+      | _, _, _ => "bad-op"
+  | ["kf-d10"] =>
+      -- known finding KF-C13-1: the attempts do not depend on idempotence
+      let out := doQuery (some (simplePolicy 1)) (fun _ => .err 9) 10 [⟨1, true, true⟩, ⟨2, true, true⟩] 0
+      "attempts=" ++ ",".intercalate (out.attempts.map toString)
+  | _ => "bad-op")
+
 end Driver.C13
